@@ -60,31 +60,32 @@ def main():
         for k, (cs, rs) in enumerate(bad):
             if cs.count("1") + rs.count("1") != m:
                 s += ["WRITEBASIS h0 g%d.bas %s %s" % (k, cs, rs)]
-        # same basic solution: the exact verdict on the basis read back equals the verdict on the original
-        for k, (cs, rs) in enumerate(bases[:12]):
-            back = "".join(("3" if is_free(c) else "0") if st in "03" else st for st, c in zip(cs, P["cols"]))
-            s += ["BOPT h0 %s %s" % (cs, rs), "BOPT h0 %s %s" % (back, rs)]
         # the problem's own basis
         # control handle h1: the same calls without the write
         s += [load_block(1, P), "OPT h1 PRIMAL", "GETBASIS h1", "OPT h1 PRIMAL", "GETBASIS h1"]
         s += ["OPT h0 PRIMAL", "GETBASIS h0", "WRITEBASIS h0 own.bas OWN", "CAT own.bas", "GETBASIS h0", "OPT h0 PRIMAL", "GETBASIS h0",
               "READBASIS h0 own.bas"]
+        # same basic solution: the exact verdict on the basis read back equals the verdict on the original (valid bases: status 3 on free columns only)
+        vb = [(cs, rs) for (cs, rs) in bases if all(st != "3" or is_free(c) for st, c in zip(cs, P["cols"]))][:12]
+        for k, (cs, rs) in enumerate(vb):
+            back = "".join(("3" if is_free(c) else "0") if st in "03" else st for st, c in zip(cs, P["cols"]))
+            s += ["BOPT h1 %s %s" % (cs, rs), "BOPT h1 %s %s" % (back, rs)]
         cases.append((cid, "\n".join(s) + "\n"))
-        meta[cid] = (P, bases, bad)
+        meta[cid] = (P, bases, bad, vb)
     scripts = dict(cases)
     M, outs, crashes, _ = run_io_cases(cases, tag="C14", per_case_timeout=300)
     if crashes:
         for c in crashes[:3]:
             ck.violation("crash_%s.txt" % c[0], scripts[c[0]], "harness died (rc %s) while writing/reading basis files" % c[1], match=dict(kind="crash"))
     q = []
-    for cid, (P, bases, bad) in meta.items():
+    for cid, (P, bases, bad, vb) in meta.items():
         free = "".join("1" if is_free(c) else "0" for c in P["cols"])
         for k, (cs, rs) in enumerate(bases):
             q.append("Q %s.%d basis %s %s %s" % (cid, k, cs, free, rs))
     ans = run_model_par("drv_io", q)
     nb = nown = nopt = 0
     own_hist = {}
-    for cid, (P, bases, bad) in meta.items():
+    for cid, (P, bases, bad, vb) in meta.items():
         if cid not in outs or cid in [c[0] for c in crashes]:
             continue
         o = RtOut(outs[cid])
@@ -124,12 +125,6 @@ def main():
                 w = o.next("WRITEBASIS")
                 if w[0][1] == "0":
                     ck.violation("invalid_%s_%d.txt" % (cid, k), scripts[cid], "a basis with the wrong number of basic entries (%s %s) was written without error" % (cs, rs), match=dict(kind="invalid-accepted"))
-        for k, (cs, rs) in enumerate(bases[:12]):
-            v1, v2 = o.next("BOPT"), o.next("BOPT")
-            nopt += 1
-            if v1[0][1:] != v2[0][1:]:
-                ck.violation("verdict_%s_%d.txt" % (cid, k), scripts[cid], "QSexact_basis_optimalstatus differs between basis %s %s and the basis read back from its file: %s vs %s" % (cs, rs, v1[0][1:], v2[0][1:]),
-                             match=dict(kind="verdict"))
         # own basis
         o.next("LOAD")
         c_opt1, c_b1, c_opt2, c_b2 = o.next("OPT"), o.next("BASIS"), o.next("OPT"), o.next("BASIS")
@@ -157,6 +152,14 @@ def main():
         exp_c = "".join(("3" if fr else "0") if s in "03" else s for s, fr in zip(cs, free))
         if rd[0][1] != "OK" or rd[0][2:4] != [exp_c, rs]:
             ck.violation("ownfile_%s.txt" % cid, scripts[cid], "the file written from the problem's own basis %s %s reads back as %s" % (cs, rs, rd[0][1:4]), match=dict(kind="roundtrip"))
+        for k, (cs, rs) in enumerate(vb):
+            v1, v2 = o.next("BOPT"), o.next("BOPT")
+            if v1 is None or v2 is None:
+                break
+            nopt += 1
+            if v1[0][1:] != v2[0][1:]:
+                ck.violation("verdict_%s_%d.txt" % (cid, k), scripts[cid], "QSexact_basis_optimalstatus differs between basis %s %s and the basis read back from its file: %s vs %s" % (cs, rs, v1[0][1:], v2[0][1:]),
+                             match=dict(kind="verdict"))
     if not pr["ok"]:
         ck.violation("proof.txt", pr["log"], "proof obligation(s) of Properties_C14.v no longer check: %s" % pr["failed"], no_input=not ck.violations)
     ck.cov["bases_compared"] = nb
